@@ -546,6 +546,11 @@ def run_check(spec, tier, seed, replay=None):
         for n in spec.judge_notes(cases, impl, judge):
             notes.append(n)
             log(n)
+    if hasattr(spec, "model_notes") and drv is not None:
+        # optional: a check summarises the model's answers (e.g. the share of cases a stage model covers)
+        for n in spec.model_notes(cases, impl, model):
+            notes.append(n)
+            log(n)
 
     if replay is not None:
         print("request : " + replay)
